@@ -104,6 +104,18 @@ CHECKS = {
         note="Trusted: Lean kernel; axioms propext/Quot.sound/Classical.choice; socket timeouts and timers (A7, measured with a generous bound); model + "
              "scripted peer harness. Known finding: tokio transport has no I/O deadline (hangs). Fixed: is_timeout() for WouldBlock.",
         technique="Lean 4 proof on a deadline/wait-count model + timed model-vs-code correspondence over loopback"),
+    "C18": dict(
+        category="proof",
+        text="Lean theorems: smtp_sink_gets_exactly (on success the server was given exactly the reverse path, the recipients in order "
+             "and content from which an RFC 5321 server reconstructs the octets: C05 composed with C03), sendmail_argv_exact, "
+             "sendmail_nonzero_is_error, file_eml_exact, json_escape_lossless, stub_exact_partial + stub_lossy_witness. Partial: file "
+             "system, process spawning and JSON are inputs. Correspondence: the same envelopes and octets through the sync and tokio stub, "
+             "file(+envelope, read back) and sendmail (fake programs dumping argv and stdin / failing) transports; Transport::send vs "
+             "(envelope(), formatted()); every scripted SMTP server behaviour through both the sync and the tokio client.",
+        design_ref="DESIGN.md 5 C18",
+        note="Trusted: Lean kernel; axioms propext/Quot.sound/Classical.choice; OS file system / process spawning / serde_json (inputs, observed by the "
+             "harness); model + harness. Known finding: the stub log is lossy for non-UTF-8 octets.",
+        technique="Lean 4 proof (composition of C03 and C05; small lemmas on the sink models) + differential correspondence sync vs async vs model"),
 }
 
 NOT_APPLICABLE = {
